@@ -256,11 +256,54 @@ def job_producers(tier, k, nchunks):
 
 
 # ---------------------------------------------------------------------------
+# ---------------------------------------------------------------------------
+# (3) one parsed statement, two kinds of context in sequence
+# ---------------------------------------------------------------------------
+def job_context_sequence(k, nchunks):
+    """A statement is first evaluated against a hand-assembled context WITHOUT finaliser (the result is raw by
+    design and not judged), then against a standard context: that second result must be plain data and equal to
+    what a freshly parsed statement returns - finalisation may not depend on what the statement saw before."""
+    import yaql
+    res = Result()
+    bare = yq.bare_context()
+    for text, names in expressions(2)[k::nchunks]:
+        for t2l, s2l in COMBOS:
+            opts = options(t2l, s2l)
+            case = {'kind': 'sequence', 'text': text, 't2l': t2l, 's2l': s2l}
+            core.CURRENT_CASE[0] = case
+            res.case(('sequence', text, t2l, s2l))
+            eng = yq.engine(opts)
+            st = eng(text)                       # a new statement object for this case
+            try:
+                st.evaluate(context=bare.create_child_context())
+            except Exception:
+                pass
+            try:
+                second = ('v', st.evaluate(context=yq.root().create_child_context()))
+            except Exception as e:
+                second = ('e', type(e).__name__, str(e)[:160])
+            try:
+                fresh = ('v', eng(text).evaluate(context=yq.root().create_child_context()))
+            except Exception as e:
+                fresh = ('e', type(e).__name__, str(e)[:160])
+            res.evaluations += 3
+            res.transitions += 1
+            res.nontrivial += 1
+            res.outcomes['sequence %s' % ('value' if second[0] == 'v' else second[1])] += 1
+            if second[0] != fresh[0] or (second[0] == 'v' and yq.canon(second[1]) != yq.canon(fresh[1])) or \
+                    (second[0] == 'e' and second[1] != fresh[1]):
+                res.fail('finalisation depends on an earlier evaluation of the same statement in a context without finaliser',
+                         case, '%s: after a bare-context evaluation the statement returns %.120r, a fresh statement %.120r'
+                         % (text, second, fresh), size=len(text))
+    return res
+
+
 def jobs(tier, seed):
     nd = 16 if tier == 'quick' else 48
     npj = 16 if tier == 'quick' else 48
     return ([('docs-%02d' % k, 'job_documents', (tier, k, nd)) for k in range(nd)]
-            + [('expr-%02d' % k, 'job_producers', (tier, k, npj)) for k in range(npj)])
+            + [('expr-%02d' % k, 'job_producers', (tier, k, npj)) for k in range(npj)]
+            + [('seq-%02d' % k, 'job_context_sequence', (k, 8)) for k in range(8)])
 
 
 def _parse_desc(text):
@@ -281,6 +324,10 @@ def _parse_desc(text):
 
 def replay(case):
     t2l, s2l = case['t2l'], case['s2l']
+    if case['kind'] == 'sequence':
+        r = job_context_sequence(0, 1)
+        hit = [f for f in r.failures.values()]
+        return {'observed': [f.detail for f in hit], 'expected': 'same plain result as a fresh statement', 'ok': not hit}
     if case['kind'] == 'doc':
         desc = _parse_desc(case['doc'])
         img, bad = expect_document(desc, t2l, s2l)
